@@ -1,5 +1,5 @@
 use super::PxE2;
-use crate::{u32_with_sign, MulAddType};
+use crate::{u32_with_sign, u32_zero_shr, MulAddType};
 
 impl<const N: u32> PxE2<{ N }> {
     #[inline]
@@ -228,9 +228,9 @@ impl<const N: u32> PxE2<{ N }> {
                 if reg_z < N {
                     //remove hidden bits
                     frac64_z &= 0x_3FFF_FFFF_FFFF_FFFF;
-                    frac_z = (frac64_z >> (reg_z + 34)) as u32; //frac32Z>>16;
+                    frac_z = crate::u64_zero_shr(frac64_z, reg_z + 34) as u32; //frac32Z>>16;
 
-                    if reg_z <= (N - 4) {
+                    if reg_z + 4 <= N {
                         bit_n_plus_one =
                             ((0x_8000_0000_0000_0000_u64 >> (N - reg_z - 2)) & frac64_z) != 0;
                         bits_more =
@@ -239,7 +239,7 @@ impl<const N: u32> PxE2<{ N }> {
                     } else {
                         if reg_z == (N - 2) {
                             bit_n_plus_one = (exp_z & 0x2) != 0;
-                            bits_more = (exp_z & 0x1) != 0;
+                            bits_more |= (exp_z & 0x1) != 0;
                             exp_z = 0;
                         } else if reg_z == (N - 3) {
                             bit_n_plus_one = (exp_z & 0x1) != 0;
@@ -260,7 +260,8 @@ impl<const N: u32> PxE2<{ N }> {
                     frac_z = 0;
                 }
 
-                exp_z <<= 28 - reg_z;
+                // (a 29- or 30-bit regime leaves room for one or no exponent bit)
+                exp_z = if reg_z <= 28 { exp_z << (28 - reg_z) } else { exp_z >> (reg_z - 28) };
 
                 let mut u_z = Self::pack_to_ui(regime, exp_z as u32, frac_z);
 
@@ -367,9 +368,9 @@ impl<const N: u32> PxE2<{ N }> {
             // Assemble the result and return it.
             let mut u_a = ui_z | (exp_z << (27 - shift)) | ((frac64_z >> (5 + shift)) as u32);
             //Check if rounding bits in regime or exp and clean off unwanted bits
-            if (((0x_8000_0000_u32 >> N) & u_a) != 0)
+            if ((u32_zero_shr(0x_8000_0000, N) & u_a) != 0)
                 && ((((0x_8000_0000_u32 >> (N - 1)) & u_a) != 0)
-                    || (((0x_7FFF_FFFF_u32 >> N) & u_a) != 0))
+                    || ((u32_zero_shr(0x_7FFF_FFFF, N) & u_a) != 0))
             {
                 u_a = (u_a & Self::mask()) + (0x_8000_0000_u32 >> (N - 1));
             }
@@ -405,8 +406,8 @@ impl<const N: u32> PxE2<{ N }> {
             if N > 8 {
                 return p_a; // This also takes care of the NaR case, 0x80000000.
             } else {
-                let bit_n_plus_one = ((0x8000_0000_u32 >> N) & ui_a) != 0;
-                let tmp = (0x7FFF_FFFF_u32 >> N) & ui_a; //bitsMore
+                let bit_n_plus_one = (u32_zero_shr(0x8000_0000, N) & ui_a) != 0;
+                let tmp = u32_zero_shr(0x7FFF_FFFF, N) & ui_a; //bitsMore
                 let bit_last = (0x8000_0000_u32 >> (N - 1)) & ui_a;
                 if bit_n_plus_one && ((bit_last | tmp) != 0) {
                     ui_a += bit_last;
